@@ -193,22 +193,20 @@ there, `cross_correlation_shift(x, x, upsample_factor=up)` is exactly `(0, 0)`. 
 theorem identical_zero_upsampled_np {M N : ℕ} (hM : 0 < M) (hN : 0 < N) (x : ℕ → ℕ → ℝ)
     (hx : UniquePeak M N x) (up : ℕ) (hup : 1 ≤ up) (G : ℕ → ℕ → Cx ℝ)
     (hstrict : UniqueMaxAt (sideNp up) (sideNp up) (patchNp M N up (ccF G G) 0 0) (du up) (du up)) :
-    shiftNpUp M N up (corrTable M N x x) (corrTable M N x x) (ccF G G) = (0, 0) := by
-  have hco := coarseNp_roll hM hN x hx 0 0
-  rw [corrTable_roll_zero hM hN] at hco
-  have hw1 : ((wrap M (-(0 : ℤ)) : ℕ) : ℝ) = 0 := by simp [wrap_zero]
-  have hw2 : ((wrap N (-(0 : ℤ)) : ℕ) : ℝ) = 0 := by simp [wrap_zero]
-  rw [hw1] at hco; rw [hw2] at hco
-  obtain ⟨_, _, hsym1, hsym2⟩ := identical_patch_np M N up hup G
-  have hdu := du_pos hup
-  unfold shiftNpUp
-  simp only [hco.1, hco.2]
-  unfold upsampledNpOf
-  simp only [argmax2_unique hstrict]
-  have hcond : 1 ≤ du up ∧ du up + 2 ≤ sideNp up ∧ 1 ≤ du up ∧ du up + 2 ≤ sideNp up := by
-    unfold sideNp; omega
-  simp only [patchRefine, hcond, and_self, if_true]
-  rw [hsym1, hsym2, parabolic_symm, parabolic_symm, finalNp_centre, centre_zero hM, centre_zero hN]
+    shiftNpUp M N up (corrTable M N x x) (corrTable M N x x) (ccF G G) = (0, 0) :=
+  shiftNpUp_identical hM hN x _ (uniquePeak_uniqueMax hM hN x hx) up hup G hstrict
+
+/-- the same with a `max_shift` mask on the search table (as `align_translation` calls it):
+the mask keeps the zero lag, and the refinement reads the unmasked correlation. -/
+theorem identical_zero_upsampled_np_masked {M N : ℕ} (hM : 0 < M) (hN : 0 < N) (x : ℕ → ℕ → ℝ)
+    (hx : UniquePeak M N x) (hpos : 0 < cc M N x x 0 0) (m : ℝ) (hm : 0 < m)
+    (up : ℕ) (hup : 1 ≤ up) (G : ℕ → ℕ → Cx ℝ)
+    (hstrict : UniqueMaxAt (sideNp up) (sideNp up) (patchNp M N up (ccF G G) 0 0) (du up) (du up)) :
+    shiftNpUp M N up (masked M N (some m) (corrTable M N x x)) (corrTable M N x x) (ccF G G) = (0, 0) ∧
+    shiftNp1 M N (masked M N (some m) (corrTable M N x x)) (corrTable M N x x) = (0, 0) := by
+  have hcs := masked_uniqueMax_zero hM hN _ (some m) (fun m' h => by cases h; exact hm)
+    (uniquePeak_uniqueMax hM hN x hx) (by simpa [corrTable] using hpos)
+  exact ⟨shiftNpUp_identical hM hN x _ hcs up hup G hstrict, shiftNp1_identical hM hN x _ hcs⟩
 
 /-- **Identical images, every upsampling factor, torch variant — the patch**: with the snapped
 coarse position `0`, `upsampleCenter = globalShift`, every entry of
